@@ -77,6 +77,8 @@ type State struct {
 	Epoch int
 	// Locals: refs of non-escaping local allocations made on every path to this point
 	Locals []Term
+	// HeldW: mutexes (struct fields) held exclusively on every path to this point
+	HeldW []heldRec
 }
 
 func (s *State) clone() *State {
@@ -84,7 +86,7 @@ func (s *State) clone() *State {
 	for k, v := range s.Heap {
 		h[k] = v
 	}
-	return &State{Reach: s.Reach, Heap: h, Epoch: s.Epoch, Locals: append([]Term{}, s.Locals...)}
+	return &State{Reach: s.Reach, Heap: h, Epoch: s.Epoch, Locals: append([]Term{}, s.Locals...), HeldW: append([]heldRec{}, s.HeldW...)}
 }
 
 type loopInfo struct {
@@ -179,6 +181,7 @@ type FnVC struct {
 	// preserveLocalsOnHavoc is set while a *call* is havocked (callees cannot touch non-escaping locals);
 	// it is off for loop-head havoc, where the loop body itself may write them.
 	preserveLocalsOnHavoc bool
+	havocKeeps            []keepRec // cells the havoc in progress cannot affect (guarded by exclusively held locks)
 }
 
 func (f *FnVC) warn(format string, a ...any) {
@@ -207,13 +210,28 @@ func (f *FnVC) epochTerm(epoch int, name, sort string) Term {
 	// a fresh unconstrained constant: the version of this component at the start of the epoch
 	t := f.SC.Declare(fmt.Sprintf("H%d_%s", epoch, name), sort)
 	// memory of the function's non-escaping locals survives a havoc-everything (no callee can reach it)
-	if pe, ok := f.epochPrev[epoch]; ok && strings.HasPrefix(sort, "(Array Int ") && len(pe.locals) > 0 {
-		prev := f.comp(pe.st, name, sort)
+	if pe, ok := f.epochPrev[epoch]; ok && strings.HasPrefix(sort, "(Array Int ") && name != heldComp {
+		var prev Term
+		havePrev := false
 		cur := t
 		for _, r := range pe.locals {
+			if !havePrev {
+				prev, havePrev = f.comp(pe.st, name, sort), true
+			}
 			cur = store(cur, r, sel(prev, r))
 		}
-		t = f.SC.Define(fmt.Sprintf("H%d_%s", epoch, name), cur)
+		// cells protected by locks this goroutine held exclusively at the havoc
+		for _, k := range pe.keeps {
+			if k.comp == name {
+				if !havePrev {
+					prev, havePrev = f.comp(pe.st, name, sort), true
+				}
+				cur = store(cur, k.idx, sel(prev, k.idx))
+			}
+		}
+		if havePrev {
+			t = f.SC.Define(fmt.Sprintf("H%d_%s", epoch, name), cur)
+		}
 	}
 	m[name] = t
 	f.heapSort[name] = sort
@@ -223,6 +241,7 @@ func (f *FnVC) epochTerm(epoch int, name, sort string) Term {
 type epochOrigin struct {
 	st     *State
 	locals []Term
+	keeps  []keepRec
 }
 
 func (f *FnVC) comp(st *State, name, sort string) Term {
@@ -259,9 +278,11 @@ func (f *FnVC) havocAll(st *State) {
 	if f.epochPrev == nil {
 		f.epochPrev = map[int]epochOrigin{}
 	}
+	eo := epochOrigin{st: prev, keeps: f.havocKeeps}
 	if f.preserveLocalsOnHavoc {
-		f.epochPrev[f.nEpoch] = epochOrigin{st: prev, locals: prev.Locals}
+		eo.locals = prev.Locals
 	}
+	f.epochPrev[f.nEpoch] = eo
 	st.Epoch = f.nEpoch
 	st.Heap = keep
 }
@@ -658,6 +679,23 @@ func (f *FnVC) mergeStates(es []edge) *State {
 		}
 		if inAll {
 			st.Locals = append(st.Locals, l)
+		}
+	}
+	for _, h := range es[0].state.HeldW {
+		inAll := true
+		for _, e := range es[1:] {
+			found := false
+			for _, m := range e.state.HeldW {
+				if m.lock.S == h.lock.S {
+					found = true
+				}
+			}
+			if !found {
+				inAll = false
+			}
+		}
+		if inAll {
+			st.HeldW = append(st.HeldW, h)
 		}
 	}
 	sameEpoch := true
